@@ -518,6 +518,13 @@ class Interp:
         p = pred[1:]
         if not is_sym(a) and not is_sym(b):
             return int({'eq': a == b, 'ne': a != b, 'lt': a < b, 'le': a <= b, 'gt': a > b, 'ge': a >= b}[p])
+        # a symbolic real is finite: comparisons with an infinite or NaN constant are decided outright (isinf/isnan tests in the code)
+        for x, y, flip in ((a, b, False), (b, a, True)):
+            if isinstance(y, float) and (math.isinf(y) or math.isnan(y)) and is_sym(x):
+                if math.isnan(y): return int(pred[0] == 'u')
+                q = p if not flip else {'lt': 'gt', 'gt': 'lt', 'le': 'ge', 'ge': 'le'}.get(p, p)
+                if y > 0: return int(q in ('ne', 'lt', 'le'))
+                return int(q in ('ne', 'gt', 'ge'))
         A = s.R(a); B = s.R(b)
         return {'eq': A == B, 'ne': A != B, 'lt': A < B, 'le': A <= B, 'gt': A > B, 'ge': A >= B}[p]
     # ----- execution -----
